@@ -162,6 +162,15 @@ let run (path : string) =
            | coins :: c :: rest ->
              let coins = zs coins in
              let env = fenv i in
+             (match env with
+              | Gauge.FarmMaster (fs, _) ->
+                let el = Gauge.eligible env in
+                let pos = L.length (L.filter (fun (_, s) -> BinInt.Z.ltb z0 s) el) in
+                bump (if fs = [] then "master:no-farmers" else if pos = 0 then "master:eligible-none"
+                      else if pos = L.length el then "master:eligible-all" else "master:eligible-some")
+              | Gauge.FarmPlain fs -> bump (if fs = [] then "plain:no-farmers" else "plain:farmers")
+              | Gauge.FarmErr -> bump "farm:err");
+             if BinInt.Z.leb (zs "9007199254740992") coins then bump "calc:allocation>=2^53";
              let mo = Gauge.farm_calc env coins in
              cmpf (Printf.sprintf "calc[%d].class" i) (cls_of mo) c;
              bump ("calc:" ^ c);
